@@ -6,6 +6,7 @@ package msgnet
 
 import (
 	"fmt"
+	"hop.computer/hop/transport"
 	"net"
 	"os"
 	"sync"
@@ -16,7 +17,14 @@ import (
 type Delivery struct {
 	Data  []byte
 	Delay time.Duration
+	// Dir, when set to the other direction (DirOpposite), delivers the data to
+	// the end that wrote the message being decided on (an old datagram of the
+	// opposite direction turning up again).
+	Dir int
 }
+
+// DirOpposite marks a Delivery for the writer's own end.
+const DirOpposite = -1
 
 // Policy is called for every message written by an end (dir 0: A->B, 1: B->A)
 // without any msgnet lock held. nil delivers faithfully and immediately.
@@ -108,6 +116,13 @@ func (e *End) ReadMsg(b []byte) (int, error) {
 		e.mu.Lock()
 		if len(e.q) > 0 {
 			m := e.q[0]
+			if len(b) < len(m) {
+				// the semantics of a hop transport connection: a message that
+				// does not fit is not cut, the reader is told and the message
+				// stays for a reader with a longer buffer
+				e.mu.Unlock()
+				return 0, transport.ErrBufOverflow
+			}
 			e.q = e.q[1:]
 			e.mu.Unlock()
 			return copy(b, m), nil
@@ -162,11 +177,15 @@ func (e *End) WriteMsg(b []byte) error {
 		return nil
 	}
 	for _, d := range pol(e.dir, seq, cp) {
+		to := e.peer
+		if d.Dir == DirOpposite {
+			to = e
+		}
 		if d.Delay > 0 {
 			data := d.Data
-			time.AfterFunc(d.Delay, func() { e.peer.enqueue(data) })
+			time.AfterFunc(d.Delay, func() { to.enqueue(data) })
 		} else {
-			e.peer.enqueue(d.Data)
+			to.enqueue(d.Data)
 		}
 	}
 	return nil
